@@ -15,7 +15,7 @@ import (
 
 // one named site each, with the reason the skipped clean-up is harmless there
 var deferObservedAllow = map[string]string{
-	"index/scorch.(*Scorch).SetPathInBolt/return-s.rootBolt.Sync()": "the return is dominated by a successful tx.Commit(); the deferred action is tx.Rollback(), a no-op on a committed transaction",
+	"index/scorch.(*Scorch).SetPathInBolt/return-call-Sync": "the return is dominated by a successful tx.Commit(); the deferred action is tx.Rollback(), a no-op on a committed transaction",
 }
 
 // ruleDeferObservedErr: when a deferred closure decides its clean-up on a
@@ -112,7 +112,11 @@ func ruleDeferObservedErr(r *Report, rule string, pkgs ...string) {
 						n++
 						ok := isNilIdent(info, e) || objOf(info, e) == v
 						r.Fn(fi)
-						if why, allowed := deferObservedAllow[bu.Name+"/return-"+exprShort(e)]; allowed && !ok {
+						allowKey := bu.Name + "/return-" + exprShort(e)
+						if ce, isCall := e.(*ast.CallExpr); isCall {
+							allowKey = bu.Name + "/return-call-" + calleeShortName(info, ce) // receiver names are not part of the key
+						}
+						if why, allowed := deferObservedAllow[allowKey]; allowed && !ok {
 							r.Allow(rule, bu.Name+"/return-"+exprShort(e), rs.Pos(), why)
 							continue
 						}
@@ -1240,7 +1244,7 @@ func ruleInclusiveFlagsSingleInterpreter(r *Report, rule string) {
 		var g *FCFG
 		for i := 0; i < sig.Params().Len(); i++ {
 			prm := sig.Params().At(i)
-			if prm.Type().String() != "*bool" || !strings.HasPrefix(prm.Name(), "inclusive") {
+			if prm.Type().String() != "*bool" {
 				continue
 			}
 			if g == nil {
@@ -1248,7 +1252,30 @@ func ruleInclusiveFlagsSingleInterpreter(r *Report, rule string) {
 			}
 			r.Fn(fi)
 			n++
-			want := strings.HasSuffix(strings.ToLower(prm.Name()), "min") || strings.HasSuffix(strings.ToLower(prm.Name()), "start")
+			// which bound does this parameter qualify?  decided by what package query passes for it:
+			// the InclusiveMin/InclusiveStart field (lower bound) or InclusiveMax/InclusiveEnd (upper bound)
+			want, roleKnown := false, false
+			for _, qf := range p.funcsInPkg("search/query") {
+				if qf.Decl.Body == nil {
+					continue
+				}
+				for _, qc := range callsDeep(qf.Decl.Body) {
+					if callee(qf.Pkg.TypesInfo, qc) != fi.Obj || i >= len(qc.Args) {
+						continue
+					}
+					if sel, ok := ast.Unparen(qc.Args[i]).(*ast.SelectorExpr); ok {
+						nm := sel.Sel.Name
+						if strings.HasSuffix(nm, "Min") || strings.HasSuffix(nm, "Start") {
+							want, roleKnown = true, true
+						} else if strings.HasSuffix(nm, "Max") || strings.HasSuffix(nm, "End") {
+							want, roleKnown = false, true
+						}
+					}
+				}
+			}
+			if !roleKnown {
+				undecidedf("%s: no query passes an Inclusive* field for parameter #%d", fi.Name, i)
+			}
 			// if P == nil { d := CONST; P = &d }
 			var defStmt *ast.IfStmt
 			var got, found bool
@@ -2895,8 +2922,9 @@ func ruleOptimisedDisjunctionKeepsMin(r *Report, rule string) {
 	g := buildCFG(info, fi.Decl.Body)
 	sig := fi.Obj.Type().(*types.Signature)
 	var minParam types.Object
+	// the minimum-should-match requirement is the float64 parameter (role by type, not by name)
 	for i := 0; i < sig.Params().Len(); i++ {
-		if sig.Params().At(i).Name() == "min" {
+		if b, ok := sig.Params().At(i).Type().Underlying().(*types.Basic); ok && b.Kind() == types.Float64 {
 			minParam = sig.Params().At(i)
 		}
 	}
